@@ -1,6 +1,7 @@
 """The two seams the simulator owns: the solver peer behind cvxpy.Problem.solve and the disk behind
 the name `open` in eaopack.serialization.  Both are installed from the harness (no hook in /repo);
 neither draws random numbers nor reads a clock - every fault is decided by the plan."""
+import codecs
 import contextlib
 import errno
 import io
@@ -175,8 +176,13 @@ class _SimFile:
     """File object of SimDisk with a position, so that 'w', 'a', 'x', 'r' and 'r+' (+ truncate) behave as on a real
     file system.  Faults: ('enospc'|'crash', k) after k written characters, ('eio_close',), ('eio_read',), ('short_read', k)."""
 
-    def __init__(self, disk, path, mode, fault):
+    def __init__(self, disk, path, mode, fault, encoding=None):
         self.disk, self.path, self.mode, self.fault = disk, path, mode, fault
+        # The disk keeps what a utf-8 reader would see.  Any other encoding goes through its real codec (byte order
+        # marks, characters the codec cannot express): bytes -> utf-8 text with surrogate escapes.
+        enc = (encoding or "utf-8").lower().replace("_", "-")
+        self.enc = None if enc in ("utf-8", "utf8") else enc
+        self.encoder = codecs.getincrementalencoder(self.enc)() if self.enc else None
         self.closed = False
         self.n = 0
         self.writes = any(c in mode for c in "wax+")
@@ -205,6 +211,8 @@ class _SimFile:
 
     # -- writing
     def write(self, s):
+        if self.encoder is not None:
+            s = self.encoder.encode(s).decode("utf-8", "surrogateescape")
         f = self.fault
         if f and f[0] in ("enospc", "crash"):
             room = f[1] - self.n
@@ -243,6 +251,8 @@ class _SimFile:
             self.disk._fire("short_read")
             data = data[:f[1]]
         self.pos += len(data)
+        if self.enc:
+            data = data.encode("utf-8", "surrogateescape").decode(self.enc)
         return data
 
     def close(self):
@@ -298,7 +308,7 @@ class SimDisk:
         if fault is not None and isinstance(fault[0], str) and "@" in fault[0]:
             kind, at = fault[0].split("@")
             fault = (kind, int(at))
-        return _SimFile(self, str(path), mode, fault)
+        return _SimFile(self, str(path), mode, fault, encoding=k.get("encoding"))
 
     @contextlib.contextmanager
     def mounted(self, faults=None):
